@@ -111,7 +111,7 @@ def gen_service(k, methods, attr="none"):
         lines.append("            let mut ctx = tarpc::context::current();")
         lines.append("            ctx.deadline = base() + std::time::Duration::from_secs(%d);" % (100 + 7 * j + k % 5))
         lines.append("            ctx.trace_context = tarpc::trace::Context { trace_id: tarpc::trace::TraceId::from((%du128 << 64) | %du128), "
-                     "span_id: tarpc::trace::SpanId::from(9u64), sampling_decision: tarpc::trace::SamplingDecision::Sampled };" % (k + 1000, j + 1))
+                     "span_id: tarpc::trace::SpanId::from(9u64), sampling_decision: tarpc::trace::SamplingDecision::%s };" % (k + 1000, j + 1, "Sampled" if (j + k) % 2 == 0 else "Unsampled"))
         lines.append("            emit(\"ClientCall\", json!({\"svc\": %d, \"m\": \"%s\", \"args\": %s, \"dl\": dl_of(&ctx), \"tr\": tr_of(&ctx)}));" % (k, name, dbg))
         lines.append("            let r = client.%s(ctx%s).await;" % (ident(m), "".join(", " + v for v in vals)))
         lines.append("            emit(\"ClientResult\", json!({\"svc\": %d, \"m\": \"%s\", \"res\": format!(\"{:?}\", r.map_err(|e| e.to_string()))}));" % (k, name))
@@ -161,7 +161,9 @@ static SEQ: AtomicU64 = AtomicU64::new(0);
 static SCN: AtomicU64 = AtomicU64::new(0);
 static BASE: std::sync::OnceLock<std::time::Instant> = std::sync::OnceLock::new();
 fn base() -> std::time::Instant { *BASE.get_or_init(std::time::Instant::now) }
-fn tr_of(ctx: &tarpc::context::Context) -> String { format!("{:x}", u128::from(ctx.trace_context.trace_id)) }
+fn tr_of(ctx: &tarpc::context::Context) -> String {
+    format!("{:x}/{}", u128::from(ctx.trace_context.trace_id), ctx.trace_context.sampling_decision == tarpc::trace::SamplingDecision::Sampled)
+}
 fn dl_of(ctx: &tarpc::context::Context) -> u64 { (ctx.deadline.duration_since(base()).as_millis() as u64 + 500) / 1000 }
 fn emit(ev: &str, mut v: serde_json::Value) {
     let m = v.as_object_mut().unwrap();
